@@ -290,6 +290,18 @@ def check_scores(scores, ref, what):
 
 
 def check_calculate(a, info):
+    # the dispatcher arm used by encode / stripe / calculate / max / argmax / threshold is forced
+    # through the verif-hooks feature (None = the host's own choice)
+    arm = a.get("arm")
+    lightmotif.lib.force_backend(arm)
+    try:
+        _check_calculate(a, info)
+    finally:
+        lightmotif.lib.force_backend(None)
+    info.cls("arm:%s" % (arm or "host"))
+
+
+def _check_calculate(a, info):
     protein, seq, sites, thr_pick = a["protein"], a["seq"], a["sites"], a["thr"]
     info.cls("protein" if protein else "dna")
     pssm = build_pssm(sites, protein, a["pseudo"])
@@ -321,6 +333,7 @@ def calculate_args(draw):
         "pseudo": draw(st.sampled_from([0.1, 0.25, 1.0])),
         "thr": draw(st.integers(0, 10 ** 6)),
         "delta": draw(st.sampled_from([0.0, 0.0, 1e-3, -1e-3, 1.0, -5.0])),
+        "arm": draw(st.sampled_from([None, None, "generic", "sse2", "avx2"])),
     }
 
 
@@ -675,7 +688,7 @@ SUBS = [
         log_odds_args(), check_log_odds, 400, 6000),
     Sub("bad-arguments", "eight families of invalid calls (alphabet mismatch in calculate / scan, invalid sequence text, bad background, bad pseudocount, malformed matrices, unknown method, bad load input); each must raise ValueError / TypeError / IndexError / OverflowError / OSError / RuntimeError and never PanicException; every case is non-trivial",
         st.fixed_dictionaries({"kind": st.sampled_from(BAD_KINDS), "text": st.text(alphabet=st.sampled_from("ACGT"), max_size=6)}), check_bad_arguments, 80, 800),
-    Sub("calculate", "sequence (DNA / protein, L 0..200 and around 1024, wildcards) x motif from generated sites (width 1..12) -> ScoringMatrix.calculate on a striped sequence; len, every score (f32 reference in numpy, same summation order), max / argmax / threshold (thresholds at real scores +- 1e-3) compared with the per-position window sums; non-trivial = L > 32 (>= 2 striped rows), width >= 2 and >= 1 valid position",
+    Sub("calculate", "sequence (DNA / protein, L 0..200 and around 1024, wildcards) x motif from generated sites (width 1..12) -> ScoringMatrix.calculate on a striped sequence; len, every score (f32 reference in numpy, same summation order), max / argmax / threshold (thresholds at real scores +- 1e-3) compared with the per-position window sums; the whole call chain under the host's dispatcher arm or one forced through the verif-hooks feature (generic / sse2 / avx2); non-trivial = L > 32 (>= 2 striped rows), width >= 2 and >= 1 valid position",
         calculate_args(), check_calculate, 300, 6000),
     Sub("scan", "DNA sequence x motif x threshold (a real score +- 1e-3, -1e6, default, 1e6) x block_size (default, 1..300) -> lightmotif.scan; (position, score) multiset equals the reference; non-trivial = some but not all positions hit",
         scan_args(), check_scan, 300, 6000),
